@@ -1,6 +1,7 @@
 package main
 
 import (
+	"fmt"
 	"sort"
 	"strings"
 
@@ -86,4 +87,199 @@ func unprotectedFuncs(r *R) []*ssa.Function {
 		})
 	}
 	return out
+}
+
+func init() {
+	p := registry["C19"]
+	p.Rules = append([]ruleDef{{"C19.R1", c19r1}, {"C19.R2", c19r2}, {"C19.R3", c19r3}, {"C19.R5", c19r5}}, p.Rules...)
+}
+
+var writerFrameType = map[string]string{
+	"WriteData": "0", "WriteDataPadded": "0", "WriteHeaders": "1", "WritePriority": "2", "WriteRSTStream": "3", "WriteSettings": "4", "WriteSettingsAck": "4",
+	"WritePushPromise": "5", "WritePing": "6", "WriteGoAway": "7", "WriteWindowUpdate": "8", "WriteContinuation": "9",
+}
+
+func c19r1(r *R) {
+	c := r.C
+	// reader side: shared with C13.R1
+	tab := parserTable(r)
+	o := r.Ob("C19.R1", "reader-table").At(c.Global("pkg/http2", "frameParsers").Pos())
+	for k, want := range frameTypeOfParser {
+		o.Check(tab[k] == want[0], "frame type %s is parsed by %q, want %s", k, tab[k], want[0])
+		if fn := c.Func("pkg/http2", want[0]); o.Check(fn != nil, "%s missing", want[0]) {
+			ts := successTypes(c, fn)
+			o.Check(len(ts) == 1 && ts[0] == want[1], "%s yields %v, want %s", want[0], ts, want[1])
+		}
+	}
+	o.Check(len(tab) == 10, "frameParsers has %d rows", len(tab))
+	// writer side: every Write* starts its frame with the type constant the reader maps back to the like-named frame
+	o2 := r.Ob("C19.R1", "writer-types")
+	seen := map[string]bool{}
+	for _, fn := range c.FuncsIn("pkg/http2") {
+		if !strings.HasPrefix(funcName(fn), "(*http2.Framer).Write") && funcName(fn) != "(*http2.Framer).startWriteDataPadded" {
+			continue
+		}
+		name := strings.TrimPrefix(funcName(fn), "(*http2.Framer).")
+		if name == "startWriteDataPadded" {
+			name = "WriteDataPadded"
+		}
+		for _, s := range callsIn(fn, "(*http2.Framer).startWrite") {
+			want, known := writerFrameType[name]
+			if name == "WriteRawFrame" {
+				continue
+			}
+			seen[name] = true
+			o2.AtI(s)
+			if !o2.Check(known, "unknown writer %s", name) {
+				continue
+			}
+			got := c.Expr(callOf(s).Args[1])
+			o2.Check(got == want, "%s starts a frame of type %s, want %s (the reader would hand it to the wrong parser)", name, got, want)
+		}
+	}
+	for n := range writerFrameType {
+		if n == "WriteData" {
+			continue // delegates to WriteDataPadded
+		}
+		o2.Check(seen[n], "writer %s has no startWrite call", n)
+	}
+	// startWrite / endWrite header layout
+	sw := c.Method("pkg/http2", "Framer", "startWrite")
+	ew := c.Method("pkg/http2", "Framer", "endWrite")
+	r.need(sw != nil && ew != nil, "startWrite/endWrite not found")
+	rows := append(returnRows(c, ew), returnRows(c, sw)...)
+	rows = append(rows, fieldWriteRows(c, []*ssa.Function{sw, ew}, "pkg/http2", "Framer", []string{"wbuf"})...)
+	checkTable(r, "C19.R1", "h2_frame_header_write", rows, "frame header write step")
+}
+
+func c19r2(r *R) {
+	c := r.C
+	rf := c.Method("pkg/http2", "Framer", "ReadFrame")
+	r.need(rf != nil, "ReadFrame not found")
+	o := r.Ob("C19.R2", "read-limit:"+funcName(rf)).At(rf.Pos())
+	lim := "-(p0.maxReadSize < http2.readFrameHeader(p0.headerBuf[:], p0.r)#0.Length)"
+	n := 0
+	eachInstr(rf, func(i ssa.Instruction) {
+		cc := callOf(i)
+		if cc == nil {
+			return
+		}
+		nm := calleeName(cc)
+		if nm == "io.ReadFull" || (nm == "" && strings.HasSuffix(c.Expr(cc.Value), ".getReadBuf")) {
+			n++
+			gs := c.guardStrs(i.Block())
+			o.AtI(i).Check(hasGuard(gs, lim), "the payload buffer is sized/read (%s) without the check Length <= maxReadSize; guards %v", shortInstr(i), gs)
+		}
+	})
+	o.Check(n == 2, "expected getReadBuf and io.ReadFull in ReadFrame, found %d", n)
+	eachInstr(rf, func(i ssa.Instruction) {
+		if ret, ok := i.(*ssa.Return); ok && hasGuard(c.guardStrs(i.Block()), "+"+lim[1:]) {
+			o.AtI(i).Check(retExpr(c, ret, 1) == "http2.ErrFrameTooLarge" && retExpr(c, ret, 0) == "nil", "an over-limit frame returns (%s, %s), want (nil, ErrFrameTooLarge)", retExpr(c, ret, 0), retExpr(c, ret, 1))
+		}
+	})
+	// the buffer handed to the parser is exactly Length bytes: getReadBuf's decisions are part of the reviewed table below
+	var gb []siteRow
+	if nf := c.Func("pkg/http2", "NewFramer"); nf != nil {
+		for _, fn := range nf.AnonFuncs {
+			gb = append(gb, returnRows(c, fn)...)
+			gb = append(gb, fieldWriteRows(c, []*ssa.Function{fn}, "pkg/http2", "Framer", []string{"readBuf"})...)
+		}
+	}
+	o.Check(len(gb) >= 2, "getReadBuf closure not found")
+	sm := c.Method("pkg/http2", "Framer", "SetMaxReadFrameSize")
+	if o.Check(sm != nil, "SetMaxReadFrameSize not found") {
+		checkTable(r, "C19.R2", "h2_set_max_read_size", append(append(fieldWriteRows(c, []*ssa.Function{sm}, "pkg/http2", "Framer", []string{"maxReadSize"}), returnRows(c, rf)...), gb...), "read-limit step")
+	}
+}
+
+// parserErrRows: countError(label) sites of the frame parsers with the error returned on that edge.
+func c19r3(r *R) {
+	c := r.C
+	var rows []siteRow
+	count := map[string]int{}
+	for _, fn := range c.funcsInFile("pkg/http2/frame.go") {
+		eachInstr(fn, func(i ssa.Instruction) {
+			call, ok := i.(*ssa.Call)
+			if !ok || calleeName(&call.Call) != "" || len(call.Call.Args) != 1 {
+				return
+			}
+			if !strings.HasSuffix(c.Expr(call.Call.Value), "p2") && !strings.Contains(c.Expr(call.Call.Value), "countError") {
+				return
+			}
+			lbl, ok := constString(call.Call.Args[0])
+			if !ok || !strings.HasPrefix(lbl, "frame_") {
+				return
+			}
+			// the return reached from here
+			var ret *ssa.Return
+			for _, j := range i.Block().Instrs {
+				if x, ok := j.(*ssa.Return); ok {
+					ret = x
+				}
+			}
+			if ret == nil && len(i.Block().Succs) == 1 {
+				for _, j := range i.Block().Succs[0].Instrs {
+					if x, ok := j.(*ssa.Return); ok {
+						ret = x
+					}
+				}
+			}
+			count[lbl]++
+			attrs := []string{"in " + funcName(fn)}
+			if ret != nil {
+				k, code := classifyErr(c, retValue(c, ret, len(ret.Results)-1))
+				attrs = append(attrs, "returns "+k+" "+code)
+			} else {
+				attrs = append(attrs, "returns ?")
+			}
+			attrs = append(attrs, c.reachConds(i.Block())...)
+			rows = append(rows, siteRow{fmt.Sprintf("%s#%d", lbl, count[lbl]), attrs, i})
+		})
+	}
+	r.Ob("C19.R3", "instances").Check(len(rows) >= 26, "expected >= 26 labelled parser error sites, found %d", len(rows))
+	checkTable(r, "C19.R3", "h2_frame_parser_errors", rows, "frame-parser error site")
+	// HEADERS/CONTINUATION ordering and meta-frame assembly decisions
+	var rows2 []siteRow
+	for _, nm := range []string{"checkFrameOrder", "readMetaFrame"} {
+		fn := c.Method("pkg/http2", "Framer", nm)
+		r.need(fn != nil, "Framer.%s not found", nm)
+		rows2 = append(rows2, returnRows(c, fn)...)
+	}
+	checkTable(r, "C19.R3", "h2_meta_frame_decisions", rows2, "header-block assembly decision")
+}
+
+// retValue: result k of a return, resolving a named-result cell through the store in the same block.
+func retValue(c *Ctx, ret *ssa.Return, k int) ssa.Value {
+	v := ret.Results[k]
+	if u, ok := v.(*ssa.UnOp); ok {
+		if al, ok := u.X.(*ssa.Alloc); ok {
+			var last ssa.Value
+			for _, i := range ret.Block().Instrs {
+				if st, ok := i.(*ssa.Store); ok && st.Addr == ssa.Value(al) {
+					last = st.Val
+				}
+			}
+			if last != nil {
+				return last
+			}
+		}
+	}
+	return v
+}
+
+func c19r5(r *R) {
+	c := r.C
+	var rows []siteRow
+	for _, fn := range c.FuncsIn("pkg/http2") {
+		if !(strings.HasPrefix(funcName(fn), "(*http2.Framer).Write") || funcName(fn) == "(*http2.Framer).startWriteDataPadded") || fn.Parent() != nil {
+			continue
+		}
+		for _, row := range returnRows(c, fn) {
+			if strings.Contains(row.Key, "returns (http2.err") || strings.Contains(row.Key, "ErrFrameTooLarge") {
+				rows = append(rows, row)
+			}
+		}
+	}
+	r.Ob("C19.R5", "instances").Check(len(rows) >= 8, "expected >= 8 write-side precondition errors, found %d", len(rows))
+	checkTable(r, "C19.R5", "h2_frame_write_preconditions", rows, "write precondition")
 }
